@@ -358,6 +358,7 @@ def _visible(ss):
 def h_lifecycle(size: int, wlen: int, ev1: int, ev2: int, other: bool, p: int) -> bool:
     """
     pre: 1 <= size <= B["size_max"] and 0 <= wlen <= size and ev1 == B["ev1"] and 0 <= ev2 <= 3
+    pre: B.get("other") is None or other == B["other"]
     pre: 0 <= p
     post: _ == True
     """
@@ -428,4 +429,76 @@ def _h_lifecycle(size, wlen, ev1, ev2, other, p):
     else:
         if _visible(ss) != [] or FS.os.path.exists(PATH):
             return "aborted / timed-out / disconnected upload left a share behind"
+    return True
+
+
+# ---- client disconnect through the Foolscap front end: every writer of the call is aborted -----------------
+
+class _Canary(object):
+    """recording canary: notifyOnDisconnect registrations, fired by the harness"""
+
+    def __init__(self):
+        self.registered = []          # [marker, callback, args, kwargs, active]
+
+    def notifyOnDisconnect(self, cb, *a, **kw):
+        marker = len(self.registered)
+        self.registered.append([marker, cb, a, kw, True])
+        return marker
+
+    def dontNotifyOnDisconnect(self, marker):
+        self.registered[marker][4] = False
+
+    def disconnect(self):
+        for r in self.registered:
+            if r[4]:
+                r[4] = False
+                r[1](*r[2], **r[3])
+
+
+hlib.encoded(server_mod.FoolscapStorageServer.__init__, server_mod.FoolscapStorageServer.remote_allocate_buckets,
+             server_mod.FoolscapStorageServer._bucket_writer_closed, imm.FoolscapBucketWriter.remote_write,
+             imm.FoolscapBucketWriter.remote_close, imm.FoolscapBucketWriter.remote_abort)
+
+
+def h_foolscap_disconnect(size: int, three: bool, wlen: int, first: int, which: int) -> bool:
+    """
+    pre: 1 <= size <= B["size_max"] and 0 <= wlen <= size and 0 <= first <= 2 and 0 <= which <= 2
+    post: _ == True
+    """
+    return X.guard(_h_foolscap_disconnect, size, three, wlen, first, which)
+
+
+def _h_foolscap_disconnect(size, three, wlen, first, which):
+    X.reset()
+    FS.split_hint = 0xc
+    clock = X.Clock()
+    ss = X.mk_server(clock=clock)
+    fss = server_mod.FoolscapStorageServer(ss)
+    canary = _Canary()
+    nums = [0, 1, 2] if three else [0, 1]
+    assume(which < len(nums))
+    already, writers = fss.remote_allocate_buckets(X.SI, LI.renew_secret, LI.cancel_secret, set(nums), size, canary)
+    if sorted(writers.keys()) != nums or ss.allocated_size() != size * len(nums):
+        return "allocation of several shares in one call"
+    writers[which].remote_write(0, ProvBuf.src("up", wlen, 0))
+    # before the connection drops one upload may already have ended: 0 nothing, 1 closed, 2 aborted by the client
+    if first == 1:
+        writers[which].remote_close()
+    elif first == 2:
+        writers[which].remote_abort()
+    canary.disconnect()
+    # every upload of the lost connection that was still in progress is gone; only a closed one is kept
+    if ss.allocated_size() != 0 or len(ss._bucket_writers) != 0:
+        return "client disconnect left a space reservation / an in-progress writer behind"
+    for n in nums:
+        if FS.os.path.exists(X.incoming_path(n)):
+            return "client disconnect left an incoming file behind"
+        kept = (first == 1 and n == which)
+        if FS.os.path.exists(X.share_path(n)) != kept:
+            return "after a disconnect exactly the shares closed before it must exist"
+    if sorted(ss.get_buckets(X.SI).keys()) != ([which] if first == 1 else []):
+        return "visible shares after the disconnect"
+    for t in clock.timers:
+        if t.active():
+            return "an upload timeout is still pending after the disconnect"
     return True
